@@ -148,7 +148,7 @@ def enclosing_decl(path: Path, line: int) -> str | None:
     return None
 
 
-def build(prop_module: str, pre=None, audit_of=None) -> Build:
+def build(prop_module: str, pre=None, audit_of=None, supp=None) -> Build:
     """`lake build` the property module and the driver; collect broken declarations.
     `pre()` (the translator) runs under the same lock, and the driver binary is copied to a
     private path before the lock is released, so concurrent checks against different
@@ -175,6 +175,25 @@ def build(prop_module: str, pre=None, audit_of=None) -> Build:
                 b.audit = audit(*audit_of)
             except Exception as ex:  # noqa
                 b.audit = {t: {"ok": False, "axioms": None, "why": f"audit failed: {ex!r}"} for t in audit_of[1]}
+        # supplementary module (theorems next to the property that its text does not state): built and
+        # audited like the property module, but its failure is information, never a broken obligation
+        b.supp = None
+        if supp is not None:
+            smod, sthms = supp
+            rc3, log3 = lake_build([smod])
+            b.supp = {"module": smod, "ok": rc3 == 0, "errors": [], "audit": {}}
+            if rc3 == 0:
+                try:
+                    b.supp["audit"] = audit(audit_of[0] if audit_of else smod.rsplit(".", 1)[-1], sthms, module=smod, tag="Supp")
+                except Exception as ex:  # noqa
+                    b.supp["audit"] = {t: {"ok": False, "axioms": None, "why": f"audit failed: {ex!r}"} for t in sthms}
+            else:
+                for m in re.finditer(r"error: ([^\s:]+\.lean):(\d+):(\d+): (.*)", log3):
+                    f = LEAN / m.group(1) if not m.group(1).startswith("/") else Path(m.group(1))
+                    b.supp["errors"].append({"file": m.group(1), "line": int(m.group(2)), "msg": m.group(4)[:300],
+                                             "decl": enclosing_decl(f, int(m.group(2)))})
+                if not b.supp["errors"]:
+                    b.supp["errors"].append({"file": "?", "line": 0, "msg": log3[-400:], "decl": None})
     b.log = log + log2
     if rc2 != 0:
         b.driver_ok = False
@@ -195,14 +214,14 @@ def build(prop_module: str, pre=None, audit_of=None) -> Build:
     return b
 
 
-def audit(prop_id: str, theorems: list[str]) -> dict:
+def audit(prop_id: str, theorems: list[str], module: str | None = None, tag: str = "") -> dict:
     """Axiom audit (`#print axioms`) of every property theorem + textual audit of the
     files the property module depends on.  Returns {theorem: {"ok":bool,"axioms":[...]}}"""
-    mod = f"Verif.Props.{prop_id}"
+    mod = module or f"Verif.Props.{prop_id}"
     res = {t: {"ok": False, "axioms": None, "why": "not checked"} for t in theorems}
     adir = LEAN / ".lake" / "audit"
     adir.mkdir(parents=True, exist_ok=True)
-    afile = adir / f"Audit{prop_id}.lean"
+    afile = adir / f"Audit{prop_id}{tag}.lean"
     body = [f"import {mod}", f"open Verif.Props.{prop_id}"]
     for t in theorems:
         body.append(f'#print axioms {t}')
